@@ -25,6 +25,20 @@ def setBit (n i k : Nat) (b : Bool) : Nat :=
   let w := 2 ^ (n - 1 - k)
   if bitOf n i k == b then i else if b then i + w else i - w
 
+/-! #### operands too wide for a full truth table: the predicates run on `samples` pseudo-random valuations -/
+
+def samples : Nat := 4096
+
+/-- pseudo-random valuation number `k` over `n` variables (SplitMix-style mixing of the index), materialised -/
+def sampleVal (n k : Nat) : Array Bool :=
+  let z := (k + 1) * 0x9E3779B97F4A7C15 % 2 ^ 64
+  let z := (z ^^^ (z >>> 29)) * 0xBF58476D1CE4E5B9 % 2 ^ 64
+  let z := (z ^^^ (z >>> 32))
+  (Array.range n).map fun j => (z >>> (j % 60)) % 2 == 1
+
+def asVal (bits : Array Bool) : Nat → Bool := fun j => bits.getD j false
+def setV (bits : Array Bool) (k : Nat) (b : Bool) : Array Bool := bits.setIfInBounds k b
+
 def parseLits? (s : String) : Option (List (Nat × Bool)) :=
   if s == "~" then some [] else
   (s.splitOn ",").mapM fun p =>
@@ -47,15 +61,35 @@ def overrideIx (n : Nat) (lits : List (Nat × Bool)) (i : Nat) : Nat :=
 
 def firstFail (xs : List (Option String)) : Option String := xs.findSome? id
 
+def agreesV (n : Nat) (lits : List (Nat × Bool)) (v : Array Bool) : Bool :=
+  (List.range n).all fun k => match lastLit lits k with | some b => v.getD k false == b | none => true
+
+def overrideV (n : Nat) (lits : List (Nat × Bool)) (v : Array Bool) : Array Bool :=
+  (List.range n).foldl (fun w k => match lastLit lits k with | some b => setV w k b | none => w) v
+
+/-- all re-assignments of the listed variables of `v` -/
+def reassign (vars : List Nat) (v : Array Bool) : List (Array Bool) :=
+  vars.eraseDups.foldl (fun acc x => acc.flatMap fun w => [setV w x false, setV w x true]) [v]
+
 def canonClause (res : Arr) : Option String := if isCanon res then none else some "not-canonical"
 
 def checkSelect (n : Nat) (res A : Arr) (lits : List (Nat × Bool)) : Option String :=
-  if n > maxTT then none else
+  if n > maxTT then
+    -- sampled: at the sample itself and at the sample forced to agree with the literals
+    if (List.range samples).all fun k =>
+        let v := sampleVal n k; let w := overrideV n lits v
+        evalArr res (asVal v) == (evalArr A (asVal v) && agreesV n lits v) &&
+        evalArr res (asVal w) == evalArr A (asVal w) then none else some "select-filter(sampled)"
+  else
   let tr := ttOf res n; let ta := ttOf A n
   if (List.range (2 ^ n)).all fun i => tr[i]! == (ta[i]! && agreesWith n lits i) then none else some "select-filter"
 
 def checkRestrict (n : Nat) (res A : Arr) (lits : List (Nat × Bool)) : Option String :=
-  if n > maxTT then none else
+  if n > maxTT then
+    if (List.range samples).all fun k =>
+        let v := sampleVal n k
+        evalArr res (asVal v) == evalArr A (asVal (overrideV n lits v)) then none else some "restrict-override(sampled)"
+  else
   let tr := ttOf res n; let ta := ttOf A n
   if (List.range (2 ^ n)).all fun i => tr[i]! == ta[overrideIx n lits i]! then none else some "restrict-override"
 
@@ -63,7 +97,16 @@ def checkRestrict (n : Nat) (res A : Arr) (lits : List (Nat × Bool)) : Option S
 def classKey (n : Nat) (vars : List Nat) (i : Nat) : Nat := vars.foldl (fun j k => if k < n then setBit n j k false else j) i
 
 def checkPick (n : Nat) (res A : Arr) (vars : List Nat) : Option String :=
-  if n > maxTT then none else
+  if n > maxTT then
+    -- sampled classes: all re-assignments of the picked variables of every sample
+    (List.range samples).findSome? fun k =>
+      let cls := reassign (vars.filter (· < n)) (sampleVal n k)
+      let inA := cls.filter fun w => evalArr A (asVal w)
+      let inR := cls.filter fun w => evalArr res (asVal w)
+      if !(inR.all fun w => evalArr A (asVal w)) then some "pick-subset(sampled)"
+      else if (if inA.isEmpty then inR.length == 0 else inR.length == 1) then none
+      else some "pick-exactly-one(sampled)"
+  else
   let tr := ttOf res n; let ta := ttOf A n
   let idx := List.range (2 ^ n)
   if !(idx.all fun i => !tr[i]! || ta[i]!) then some "pick-subset" else
@@ -73,7 +116,13 @@ def checkPick (n : Nat) (res A : Arr) (vars : List Nat) : Option String :=
 
 /-- `var_pick` with preferred value `pref` -/
 def checkVarPick (n : Nat) (res A : Arr) (x : Nat) (pref : Bool) : Option String :=
-  if n > maxTT then none else
+  if n > maxTT then
+    if (List.range samples).all fun k =>
+        [false, true].all fun b =>
+          let w := setV (sampleVal n k) x b; let tw := setV w x (!b)
+          evalArr res (asVal w) == (evalArr A (asVal w) && (b == pref || !evalArr A (asVal tw)))
+      then none else some "var-pick-preferred(sampled)"
+  else
   let tr := ttOf res n; let ta := ttOf A n
   let ok := (List.range (2 ^ n)).all fun i =>
     let j := setBit n i x (!bitOf n i x)
@@ -81,7 +130,12 @@ def checkVarPick (n : Nat) (res A : Arr) (x : Nat) (pref : Bool) : Option String
   if ok then none else some "var-pick-preferred"
 
 def checkQuant (n : Nat) (res A : Arr) (x : Nat) (isEx : Bool) : Option String :=
-  if n > maxTT then none else
+  if n > maxTT then
+    if (List.range samples).all fun k =>
+        let v := sampleVal n k
+        let a := evalArr A (asVal (setV v x false)); let b := evalArr A (asVal (setV v x true))
+        evalArr res (asVal v) == (if isEx then a || b else a && b) then none else some "projection(sampled)"
+  else
   let tr := ttOf res n; let ta := ttOf A n
   let ok := (List.range (2 ^ n)).all fun i =>
     let a := ta[setBit n i x false]!; let b := ta[setBit n i x true]!
@@ -107,7 +161,7 @@ def verdict (model res : String) (A : Arr) (inScope : Bool) (pred : Arr → Opti
     | none => some ("outcome:" ++ res)
   { agree := model == res, model, fail, nontrivial := nontrivial obs A, tags }
 
-def szTag (A : Arr) : String := s!"n{numVars A}"
+def szTag (A : Arr) : String := if A.size > 65536 then s!"n{numVars A},big" else s!"n{numVars A}"
 
 def handle (key : String) (ins obs : List String) : Verdict :=
   match key, ins, obs with
